@@ -8,19 +8,19 @@ CONSTANTS
  VTab <- MC_VTabA
  CRange <- MC_CRange
  Reqs <- MC_Reqs2
- Menu <- MC_MenuQ3
- MaxConns = 4
- MaxMoves = 0
+ Menu <- MC_MenuQ2
+ MaxConns = 3
+ MaxMoves = 1
  MaxCancels = 0
  MaxCuts = 0
- MaxRefresh = 0
+ MaxRefresh = 1
  MaxExpire = 0
- MaxCloseIdle = 1
+ MaxCloseIdle = 0
  Hist = TRUE
  Bug = "none"
  AnyConnId = FALSE
- AtomicRelease = TRUE
- MoveKinds = {"leader", "add", "addr", "remove", "topic", "coord", "txn", "ctrlr"}
+ AtomicRelease = FALSE
+ MoveKinds = {"addr"}
 INVARIANTS TypeOK C12_Routing C12_Address C12_Version C12_FollowLeader C12_CacheFilter C06t_OwnResponse C06t_ReleaseOnlyAfterComplete C06t_NoReuseAfterFailure C09t_CancelPrompt C09t_ClosedPoolConnsClose
 PROPERTIES C12_GrabIsLatest C06t_DeadStaysDead
 CHECK_DEADLOCK FALSE
